@@ -507,7 +507,7 @@ type runResult struct {
 }
 
 func runWorkload(dir, stepsFile string, killAt int, countFile string) runResult {
-	cmd := exec.Command(os.Args[0], "-child-workload", dir, stepsFile)
+	cmd := exec.Command(selfExe(), "-child-workload", dir, stepsFile)
 	cmd.Env = append(os.Environ(), "LD_PRELOAD="+shimPath, fmt.Sprintf("CRASH_AT=%d", killAt))
 	if countFile != "" {
 		cmd.Env = append(cmd.Env, "CRASH_COUNT="+countFile)
@@ -551,7 +551,7 @@ func countSyscalls(dir, stepsFile string) (int, runResult, error) {
 }
 
 func audit(dir, stepsFile string, acked int, driver string) (verdict, error) {
-	cmd := exec.Command(os.Args[0], "-child-audit", dir, stepsFile, fmt.Sprint(acked), driver)
+	cmd := exec.Command(selfExe(), "-child-audit", dir, stepsFile, fmt.Sprint(acked), driver)
 	var eb strings.Builder
 	cmd.Stderr = &eb
 	out, err := cmd.Output()
@@ -561,6 +561,14 @@ func audit(dir, stepsFile string, acked int, driver string) (verdict, error) {
 		return v, fmt.Errorf("audit process: %v %v %s", err, jerr, eb.String())
 	}
 	return v, nil
+}
+
+// selfExe: the absolute path of this binary (the parent may have changed directory)
+func selfExe() string {
+	if p, err := os.Executable(); err == nil {
+		return p
+	}
+	return os.Args[0]
 }
 
 func main() {
